@@ -615,6 +615,16 @@ func (n *k4) ExecFallback(p any, err error) (any, error) { return n.h.anyRet(n.h
 
 func waitDur(ms int) time.Duration { return time.Duration(ms) * time.Millisecond }
 
+// baseFor: the embedded base of a K1 node.  With the default settings (one attempt, no wait) every
+// other node (by node number and size of the script) embeds a zero-value BaseNode literal instead of one made by NewBaseNode: both must
+// behave alike (a budget below one means one attempt).
+func baseFor(d NodeDef, opts []flyt.NodeOption, rt *scriptRT) *flyt.BaseNode {
+	if d.Retry != nil && d.Retry[0] == 1 && d.Retry[1] == 0 && (d.ID+len(rt.entries))%2 == 1 {
+		return &flyt.BaseNode{}
+	}
+	return flyt.NewBaseNode(opts...)
+}
+
 // buildNode constructs the flyt node for a definition. Flows are connected afterwards.
 func buildNode(d NodeDef, rt *scriptRT) (flyt.Node, error) {
 	h := &hnode{id: d.ID, rt: rt, gated: d.Kind == "batch" && d.Conc > 0}
@@ -629,13 +639,13 @@ func buildNode(d NodeDef, rt *scriptRT) (flyt.Node, error) {
 	case "user":
 		switch d.Impl {
 		case "k1":
-			return &k1all{BaseNode: flyt.NewBaseNode(baseOpts...), h: h}, nil
+			return &k1all{BaseNode: baseFor(d, baseOpts, rt), h: h}, nil
 		case "k1fb":
-			return &k1fb{k1all{BaseNode: flyt.NewBaseNode(baseOpts...), h: h}}, nil
+			return &k1fb{k1all{BaseNode: baseFor(d, baseOpts, rt), h: h}}, nil
 		case "k1exec":
-			return &k1exec{BaseNode: flyt.NewBaseNode(baseOpts...), h: h}, nil
+			return &k1exec{BaseNode: baseFor(d, baseOpts, rt), h: h}, nil
 		case "k1none":
-			return &k1none{BaseNode: flyt.NewBaseNode(baseOpts...)}, nil
+			return &k1none{BaseNode: baseFor(d, baseOpts, rt)}, nil
 		case "k2":
 			return &k2{h: h}, nil
 		case "k3":
